@@ -757,6 +757,9 @@ func ReplayMain(self, id, path string) int {
 		}
 		return 1
 	}
+	for _, n := range r.Notes {
+		fmt.Println("  note (replay incomplete):", n)
+	}
 	fmt.Println("replay: no violation")
 	return 0
 }
